@@ -1,0 +1,49 @@
+// Verification hooks (compiled only with `--cfg mech_verif`).
+//
+// A logical clock for the parser (attempted consumptions) with an optional
+// budget, and a progress monitor for the hand-written parser loops: within one
+// guard, three consecutive iterations must not start at the same cursor.
+use std::cell::Cell;
+
+thread_local! {
+  static STEPS: Cell<u64> = Cell::new(0);
+  static BUDGET: Cell<u64> = Cell::new(u64::MAX);
+  static LOOP_TICKS: Cell<u64> = Cell::new(0);
+}
+
+/// Reset the clock and arm the budget (u64::MAX = unlimited).
+pub fn reset(budget: u64) {
+  STEPS.with(|s| s.set(0));
+  LOOP_TICKS.with(|s| s.set(0));
+  BUDGET.with(|b| b.set(budget));
+}
+
+pub fn steps() -> u64 { STEPS.with(|s| s.get()) }
+pub fn loop_ticks() -> u64 { LOOP_TICKS.with(|s| s.get()) }
+
+#[inline]
+pub fn step() {
+  let n = STEPS.with(|s| { let n = s.get() + 1; s.set(n); n });
+  if n > BUDGET.with(|b| b.get()) {
+    BUDGET.with(|b| b.set(u64::MAX));
+    panic!("VERIF-BUDGET steps={}", n);
+  }
+}
+
+pub struct LoopGuard { site: &'static str, last: usize, same: u32 }
+
+impl LoopGuard {
+  pub fn new(site: &'static str) -> LoopGuard { LoopGuard { site, last: usize::MAX, same: 0 } }
+  pub fn tick(&mut self, cursor: usize) {
+    LOOP_TICKS.with(|s| s.set(s.get() + 1));
+    if cursor == self.last {
+      self.same += 1;
+      if self.same >= 2 {
+        panic!("VERIF-NO-PROGRESS site={} cursor={}", self.site, cursor);
+      }
+    } else {
+      self.last = cursor;
+      self.same = 0;
+    }
+  }
+}
